@@ -79,8 +79,21 @@ fn stage(i: &Input, c: &mut Case) -> Result<(), String> {
     let ops_f = &all_ops[..cut];
     let ops_vec: Vec<WOp> = ops_f.iter().map(|x| x.0.clone()).collect();
     let ops = &ops_vec[..];
-    c.key(&(d.spec.table().elems.clone(), &format!("{:?}", ops)));
-    c.sample_with(|| format!("spec {} | ops {} | then flush", spec_brief(d.spec.table()), render_ops(ops)));
+    // what is actually handed to the writer: in a third of the sequences some default-option leaves go through
+    // write_raw(id, payload bytes) instead of write() — one more call of "all sequences of writer calls"; the model keeps the leaf
+    let mut applied: Vec<WOp> = ops_vec.clone();
+    if t.chance(1, 3) {
+        let mut n = 0;
+        for (k, op) in applied.iter_mut().enumerate() {
+            if !ops_f[k].1 {
+                n += rawify_ops(&mut t, std::slice::from_mut(op), 1, 2, false);
+            }
+        }
+        c.label_if(n > 0, "leaves_through_write_raw");
+    }
+    let applied = &applied[..];
+    c.key(&(d.spec.table().elems.clone(), &format!("{:?}", applied)));
+    c.sample_with(|| format!("spec {} | ops {} | then flush", spec_brief(d.spec.table()), render_ops(applied)));
 
     with_spec!(d.spec, T => {
         let mut w = Wr::<T>::new(RecDest::new());
@@ -108,7 +121,7 @@ fn stage(i: &Input, c: &mut Case) -> Result<(), String> {
                 snapshots.push(prev.clone());
                 continue;
             }
-            w.apply(op).map_err(|e| format!("call #{} {} of a valid sequence failed: {:?}\n  ops: {}", k, op.short(), e, render_ops(ops)))?;
+            w.apply(&applied[k]).map_err(|e| format!("call #{} {} of a valid sequence failed: {:?}\n  ops: {}", k, applied[k].short(), e, render_ops(applied)))?;
             let dnow = w.dest().to_vec();
             if !dnow.starts_with(&prev) {
                 return Err(format!("after call #{} {} the destination no longer starts with what it held before (bytes retracted or altered)\n  before: {}\n  after:  {}", k, op.short(), hex(&prev), hex(&dnow)));
@@ -172,7 +185,7 @@ fn stage(i: &Input, c: &mut Case) -> Result<(), String> {
                 let obs = read_all::<T>(&dnow, &ReadCfg::strict());
                 c.checks += 1;
                 expect_exact(&obs, &want, "destination after a completed write with no known-size master open").map_err(|m| {
-                    format!("after call #{} {}: {}\n  destination holds: {}\n  observed: {}\n  ops so far: {}", k, op.short(), m, hex(&dnow[..dnow.len().min(200)]), render_obs(&obs), render_ops(&ops[..=k]))
+                    format!("after call #{} {}: {}\n  destination holds: {}\n  observed: {}\n  ops so far: {}", k, applied[k].short(), m, hex(&dnow[..dnow.len().min(200)]), render_obs(&obs), render_ops(&applied[..=k]))
                 })?;
                 c.label("complete_prefix_checked");
             }
@@ -236,7 +249,7 @@ pub const STAGES: &[Stage] = &[Stage { name: "streaming", f: stage }];
 
 pub fn run(rc: &mut RunCtx) {
     rc.run_pt(STAGES[0], rc.pick(320_000, 1_500_000), (96, 640));
-    for l in ["complete_prefix_checked", "known_open_checked", "unknown_then_writes_then_known", "flush_with_open_masters", "with_rejected_calls"] {
+    for l in ["complete_prefix_checked", "known_open_checked", "unknown_then_writes_then_known", "flush_with_open_masters", "with_rejected_calls", "leaves_through_write_raw"] {
         rc.require_label("streaming", l, 20_000);
     }
     if !rc.quick() {
